@@ -408,11 +408,20 @@ class Reader:
             if base in ["d", "o", "x", "X"]:
                 return format(index, base).zfill(width)
 
-            # base can only be n or N here
-            hexa = _format_index(index, "x", width)
-            nibbles = ".".join(hexa[::-1])[:width]
+            # base can only be n or N here: the hex digits, lowest first, one
+            # label each; the field is at least `width` characters wide counting
+            # the separators, and is never cut (as BIND's nibbles()).
+            digits = format(index, "x")[::-1]
             if base == "N":
-                nibbles = nibbles.upper()
+                digits = digits.upper()
+            nibbles = ""
+            while digits or width > 0:
+                nibbles += digits[:1] or "0"
+                digits = digits[1:]
+                width = max(width - 1, 0)
+                if width > 0 or digits:
+                    nibbles += "."
+                    width = max(width - 1, 0)
             return nibbles
 
         lmod, lsign, loffset, lwidth, lbase = self._parse_modify(lhs)
